@@ -50,7 +50,7 @@ REQUIRED_COUNTERS = ['pairs_compared', 'seed_sensitivity_pairs', 'pairs:repeat',
                      'pairs:perturbed', 'pairs:interleaved', 'pairs:fresh-process',
                      'pairs:after-servicer', 'bench_pairs_compared', 'gp_pairs_compared',
                      'gp_fresh_process_pairs', 'seed0_pairs', 'x64_flip_observed']
-MIN_DISTINCT = {'quick': 200, 'thorough': 2000}
+MIN_DISTINCT = {'quick': 60, 'thorough': 1000}
 
 N_GP_TASKS = {'quick': 4, 'thorough': 48}
 
